@@ -13,6 +13,7 @@ import Rsp.Model.Rewrite
 import Rsp.Model.Crypt
 import Rsp.Model.Choose
 import Rsp.Model.Ttl
+import Rsp.Model.Addr
 namespace Rsp.World
 open Rsp Rsp.Radmsg Rsp.Rewrite
 
@@ -28,6 +29,7 @@ structure CliConf where
   type : Nat
   secret : Bytes
   dup : Nat
+  hosts : List (Bytes × Nat) := []     -- (IPv4 address, prefix length | 255): used by the UDP listener ops
   addttl : Nat := 0
   rwIn : Option Rewrite := none
   rwOut : Option Rewrite := none
@@ -99,6 +101,8 @@ structure Client where
   cache : List (Option Nat) := List.replicate 256 none
   replyq : List Nat := []
   alive : Bool := true
+  addr : Option Nat := none         -- UDP association: index of the source (address, port) it belongs to
+  expiry : Nat := 0
 deriving Repr
 
 structure World where
@@ -116,6 +120,8 @@ structure World where
   radputOk : Bool := true
   rnds : List Bytes := []           -- oracle: successive RAND_bytes results
   events : List String := []        -- per-op observable events (reverse order)
+  nas : List Bytes := []            -- UDP sources (IPv4 addresses) known to the harness
+  udpPending : Option Nat := none   -- the request object udpserverrd allocated before blocking
 
 def stOff : Nat := 0
 def ssOff : Nat := 0
@@ -848,5 +854,59 @@ def removeclient (w : World) (ci : Nat) : World :=
 /-- connection re-established (tail of tcpconnect/tlsconnect) -/
 def connReset (w : World) (si : Nat) : World :=
   updSrv w si fun s => { s with state := 2, lost := 0, conreset := true }
+
+/-! ### UDP listener (udp.c: udpserverrd / radudpget) -/
+
+/-- `find_clconf(handle, from)`: first UDP client block whose host list contains the source -/
+def udpFindConf (w : World) (src : Bytes) : Option Nat :=
+  w.cliConfs.findIdx? fun c => c.type = 0 ∧ c.hosts.any fun (a, p) =>
+    if p ≥ 32 then a = src else Addr.prefixmatch src a p
+
+/-- the association scan of `radudpget`: refresh the matching association, drop expired
+    ones, and create a new association when none matches. Returns the association index. -/
+def udpIdle (w : World) (conf : Nat) : Nat :=
+  let d := (w.cliConfs.getD conf { name := [], type := 0, secret := [], dup := 0 }).dup
+  if d > 60 then d else 60
+
+def udpAssoc (w : World) (conf nasIdx : Nat) : World × Nat :=
+  -- first pass in list order: find the match (refreshing it) and collect expired associations
+  let idxs := (List.range w.clients.length).filter fun i =>
+    match w.clients[i]? with | some c => c.alive ∧ c.conf = conf ∧ c.addr.isSome | none => false
+  let found := idxs.find? fun i => (w.clients[i]?.bind (·.addr)) = some nasIdx
+  let w := match found with
+    | some i => updCli w i fun c => { c with expiry := w.now + udpIdle w conf }
+    | none => w
+  let expired := idxs.filter fun i => match w.clients[i]? with | some c => c.expiry < w.now | none => false
+  let w := expired.foldl removeclient w
+  match found with
+  | some i => (w, i)
+  | none => ({ w with clients := w.clients ++ [{ conf := conf, addr := some nasIdx, expiry := w.now + udpIdle w conf }] }, w.clients.length)
+
+inductive UdpRes | dropped | handled (ret : Nat) (assoc : Nat) (o : Nat)
+
+/-- one datagram through `udpserverrd`: peer lookup, length checks, association, `radsrv` -/
+def udpRecv (w : World) (nasIdx : Nat) (pkt : Bytes) : World × UdpRes :=
+  match w.nas[nasIdx]? with
+  | none => (w, .dropped)
+  | some src =>
+    match udpFindConf w src with
+    | none => (w, .dropped)
+    | some conf =>
+      let len := beVal ((pkt.drop 2).take 2)
+      if pkt.length < 4 ∨ len < minLen ∨ len > maxLen ∨ pkt.length < len then (w, .dropped)
+      else
+        let (w, ci) := udpAssoc w conf nasIdx
+        match w.udpPending with
+        | none => (w, .dropped)
+        | some o =>
+          let w := updRq w o fun r => { r with buf := some (pkt.take len), frm := some ci, created := w.now }
+          let (w, ret) := radsrv w o
+          ({ w with udpPending := none }, .handled ret ci o)
+
+/-- back at the top of the loop: the next request object is allocated before the blocking receive -/
+def udpLoopTop (w : World) : World :=
+  match w.udpPending with
+  | some _ => w
+  | none => let (w, o') := newrequest w; { w with udpPending := some o' }
 
 end Rsp.World
